@@ -718,34 +718,80 @@ func (r IMPL) Check(w *World) []Result {
 	pat := MustLitPat(r.Lit)
 	construct := "IMPL:" + r.Fn + ":" + r.Lit + "⇒¬" + r.Not.Want
 	sinks := w.ReturnSinks(fn, r.Not)
-	n := 0
-	var out []Result
+	type edge struct {
+		b   *ssa.BasicBlock
+		i   int
+		lit Lit
+		via string
+	}
+	var edges []edge
 	for _, b := range fn.Blocks {
 		t, f, ok := w.BlockLits(b)
 		if !ok {
 			continue
 		}
 		for i, l := range []Lit{t, f} {
-			if !pat.Match(l) {
+			if pat.Match(l) {
+				edges = append(edges, edge{b, i, l, ""})
+			}
+		}
+		// a materialised boolean / value join: the literal is one predecessor's operand
+		if phi := boolJoin(b); phi != nil {
+			for k := range phi.Edges {
+				truth, jt, jf := w.joinOperand(b, phi, k)
+				if truth >= 0 {
+					continue
+				}
+				for i, l := range []Lit{jt, jf} {
+					if pat.Match(l) {
+						edges = append(edges, edge{b, i, l, " (operand)"})
+					}
+				}
+			}
+		}
+	}
+	if len(edges) == 0 {
+		// the condition was extracted into a private helper: the caller's edges on which the helper reports an outcome
+		// that the literal forces stand for the literal's edge
+		for _, b := range fn.Blocks {
+			if len(b.Instrs) == 0 || len(b.Succs) != 2 {
 				continue
 			}
-			n++
-			reach := Reach([]*ssa.BasicBlock{b.Succs[i]}, nil)
-			for _, s := range sinks {
-				bad := false
-				if s.Pred != nil {
-					bad = reach[s.Pred] || s.Pred == b && b.Succs[i] == s.Ret.Block()
-				} else {
-					bad = reach[s.Ret.Block()]
+			ifi, ok := b.Instrs[len(b.Instrs)-1].(*ssa.If)
+			if !ok {
+				continue
+			}
+			call, idx, wantT, wantF, ok := condCallOutcome(ifi.Cond)
+			if !ok {
+				continue
+			}
+			for e, want := range []string{wantT, wantF} {
+				if w.helperImplies(fn, call, idx, want, pat) {
+					edges = append(edges, edge{b, e, Lit{true, "(" + w.CalleeName(call.Common()) + " ⇒ " + want + ")"}, " (via helper)"})
 				}
-				// a value-dependent outcome that is the negation of the literal itself is excluded
-				if bad && s.Lit != nil && s.Lit.Expr == l.Expr && s.Lit.Pol != l.Pol {
-					bad = false
-				}
-				if bad {
-					out = append(out, one(r.ID, "IMPL", construct, Violated, n, w.InstrPos(b.Instrs[len(b.Instrs)-1]),
-						fmt.Sprintf("in %s, after `%s` holds the function can still return outcome %q (%s @%s)", r.Fn, l, r.Not.Want, s.Desc, w.InstrPos(s.Ret))))
-				}
+			}
+		}
+	}
+	n := 0
+	var out []Result
+	for _, e := range edges {
+		b, i, l := e.b, e.i, e.lit
+		n++
+		reach := Reach([]*ssa.BasicBlock{b.Succs[i]}, nil)
+		for _, s := range sinks {
+			bad := false
+			if s.Pred != nil {
+				bad = reach[s.Pred] || s.Pred == b && b.Succs[i] == s.Ret.Block()
+			} else {
+				bad = reach[s.Ret.Block()]
+			}
+			// a value-dependent outcome that is the negation of the literal itself is excluded
+			if bad && s.Lit != nil && s.Lit.Expr == l.Expr && s.Lit.Pol != l.Pol {
+				bad = false
+			}
+			if bad {
+				out = append(out, one(r.ID, "IMPL", construct, Violated, n, w.InstrPos(b.Instrs[len(b.Instrs)-1]),
+					fmt.Sprintf("in %s, after `%s`%s holds the function can still return outcome %q (%s @%s)", r.Fn, l, e.via, r.Not.Want, s.Desc, w.InstrPos(s.Ret))))
 			}
 		}
 	}
